@@ -88,11 +88,13 @@ Fixpoint split_at (n : nat) (l : list N) : list N * list N :=
   | S _, [] => ([], [])
   end.
 
-(* readN(n): allocates n, io.ReadFull *)
+(* readN(n): io.ReadFull in chunks of at most 64 KiB; the buffer grows as bytes arrive, so
+   the memory requested is bounded by the bytes present plus one chunk *)
+Definition read_chunk_size : N := 65536.
 Definition b_readN (b : bstate) (n : N) : bres (list N) :=
   if n =? 0 then (b, Ok []) else
-  let b := upd_alloc b n in
   let avail := N.of_nat (length (b_in b)) in
+  let b := upd_alloc b (N.min n (avail + read_chunk_size)) in
   if n <=? avail then
     let '(a, r) := split_at (N.to_nat n) (b_in b) in
     (upd_in b r (wrap64 (b_pos b + n)), Ok a)
@@ -106,8 +108,8 @@ Definition b_skip (b : bstate) (n : N) : bres unit :=
     let '(_, r) := split_at (N.to_nat n) (b_in b) in
     (upd_in b r (wrap64 (b_pos b + n)), Ok tt)
   else
-    let b' := upd_in b [] (wrap64 (b_pos b + avail)) in
-    if b_ioerr b then (b', Err) else (b', Ok tt).
+    (* fewer bytes than declared: UnexpectedEOFError (or the I/O failure) *)
+    (upd_in b [] (wrap64 (b_pos b + avail)), Err).
 
 (* peekAtOffset(k) *)
 Definition b_peek (b : bstate) (k : N) : res N :=
@@ -228,14 +230,18 @@ Definition b_next (b : bstate) : bres unit :=
     then (upd_state (upd_cur b bcFieldID (b_null b) (b_len b)) bssOnFieldID, Ok tt)
     else
     match b_read b with
-    | (b, Ok None) => (upd_cur b bcEOF (b_null b) (b_len b), Ok tt)
+    | (b, Ok None) =>
+      (match b_stack b with
+       | [] => (upd_cur b bcEOF (b_null b) (b_len b), Ok tt)
+       | _ => (b, Err)                 (* the input stops inside a container *)
+       end)
     | (b, Ok (Some c)) =>
       let '(code, length) := b_parse_tag c in
       (* ordered structs: length always a VarUInt *)
       match (if (code =? bcStruct) && (length =? 1)
              then match b_remaining b with
                   | Ok rem => match b_read_varuint b rem with
-                              | (b', Ok (l, _)) => if l =? 0 then (b', Err) else (b', Ok l)
+                              | (b', Ok (l, _)) => if l =? 0 then (b', Err) else (b', Ok (l, true))
                               | (b', Err) => (b', Err)
                               | (b', Panic) => (b', Panic)
                               | (b', OutOfFuel) => (b', OutOfFuel)
@@ -243,8 +249,8 @@ Definition b_next (b : bstate) : bres unit :=
                   | Panic => (b, Panic)
                   | _ => (b, Err)
                   end
-             else (b, Ok length)) with
-      | (b, Ok length) =>
+             else (b, Ok (length, false))) with
+      | (b, Ok (length, length_read)) =>
         if code =? bcNone then (b, Err) else
         let b := upd_state b bssOnValue in
         if (code =? bcAnnotation) && (length =? 0) then
@@ -261,10 +267,10 @@ Definition b_next (b : bstate) : bres unit :=
                else Some (code, length)) with
         | None => (b, Err)
         | Some (code, length) =>
-          if length =? 15 then (upd_cur b code true (b_len b), Ok tt) else
+          if (length =? 15) && negb length_read then (upd_cur b code true (b_len b), Ok tt) else
           match b_remaining b with
           | Ok rem =>
-            match (if length =? 14
+            match (if (length =? 14) && negb length_read
                    then match b_read_varuint b rem with
                         | (b', Ok (l, ll)) => (b', Ok (l, wrap64 (rem + two64 - ll)))
                         | (b', Err) => (b', Err)
@@ -273,7 +279,9 @@ Definition b_next (b : bstate) : bres unit :=
                         end
                    else (b, Ok (length, rem))) with
             | (b, Ok (length, rem)) =>
-              if rem <? length then (b, Err) else (upd_cur b code (b_null b) length, Ok tt)
+              if rem <? length then (b, Err)
+              else if wrap64 (b_pos b + length) <? b_pos b then (b, Err)     (* end offset would wrap *)
+              else (upd_cur b code (b_null b) length, Ok tt)
             | (b, Err) => (b, Err)
             | (b, Panic) => (b, Panic)
             | (b, OutOfFuel) => (b, OutOfFuel)
